@@ -110,6 +110,10 @@ type Scanner struct {
 	allowAnnotation bool
 
 	hasTrailingCharacters bool
+
+	// afterFirstSlash the slash that begins an annotation has been read, the
+	// byte that tells which kind of annotation has not.
+	afterFirstSlash bool
 }
 
 type context struct {
@@ -254,6 +258,13 @@ func (s *Scanner) Next() (lexeme.LexEvent, bool) {
 			s.found(lexeme.MixedValueEnd)
 			return s.processingFoundLexeme(lexeme.TypesShortcutEnd), true
 		}
+		err := errors.NewDocumentError(s.file, errors.ErrUnexpectedEOF)
+		err.SetIndex(s.dataSize - 1)
+		panic(err)
+	}
+
+	if s.afterFirstSlash && !s.lengthComputing {
+		// "1 /": the text ends inside the beginning of an annotation.
 		err := errors.NewDocumentError(s.file, errors.ErrUnexpectedEOF)
 		err.SetIndex(s.dataSize - 1)
 		panic(err)
